@@ -4,7 +4,7 @@ JoinPath = ufunc("JoinPath", STR, STR, STR)    # urlutils.joinpath(base, *args):
 Escape = ufunc("Escape", STR, STR)             # urlutils.escape
 Unescape = ufunc("Unescape", STR, STR)
 exceptions(ValueError="Exception", PathNotChild="Exception", InvalidURLJoin="Exception", UnicodeDecodeError="ValueError")
-REQ = cls("SmartServerRequest", fields={"_root_client_path": Opt(STR), "_backing_transport": ANY})
+REQ = cls("SmartServerRequest", fields={"_root_client_path": Opt(STR), "_backing_transport": ANY, "_jail_root": Opaque("Transport")})
 cls("VfsRequest", fields={"_root_client_path": Opt(STR), "_backing_transport": ANY})
 assumed("client_path.decode", pure=True, returns=lambda c: Dec8(c.client_path), raises={"UnicodeDecodeError": None})
 assumed("urlutils.joinpath", pure=True, returns=lambda c: JoinPath(c.args[0], c.args[1]), raises={"InvalidURLJoin": None},
@@ -52,5 +52,43 @@ target(P + "transport_from_client_path", params=dict(client_path=BYTES), modifie
        ensures={"one_clone": lambda c: lift(c.calls("self._backing_transport.clone") == 1)},
        raises={"Exception": True}, canary=lambda c: lift(c.calls("self._backing_transport.clone") == 0))
 
+# ---- the jail: opening a control directory outside the allowed transports fails. Containment is decided by the transport's own
+#      relpath (dromedary, external): it succeeds exactly for URLs at or below the transport's base, component-wise.
+TRANS = Opaque("Transport")
+attr_sort("Transport.base", STR)
+Below = ufunc("Below", TRANS, STR, BOOL)       # the URL is the transport's base or lies below it (whole path components)
+JAIL = cls("JailInfo", fields={"transports": Opt(Seq(TRANS))})
+exceptions(JailBreak="Exception")
+assumed("allowed_transport.relpath", pure=True, result=STR, ensures=lambda c: Below(c.allowed_transport, c.args[0]),
+        raises={"PathNotChild": lambda c: Not(Below(c.allowed_transport, c.args[0])), "Exception": lambda c: Not(Below(c.allowed_transport, c.args[0]))},
+        note="dromedary Transport.relpath: returns for a URL at or below self.base (component-wise), raises PathNotChild (or, for "
+             "local transports, InvalidURL) otherwise - assumed")
+A0 = ufunc("A0", TRANS)                         # an arbitrary allowed transport (skolem constant)
+
+
+def none_allows(c, upto):
+    """no allowed transport among the first `upto` contains the URL being opened"""
+    ts = c.old.jail_info.transports.val
+    return forall([INT], lambda j: Implies(And(0 <= j, j < upto), Not(Below(ts[j], attr(c.old.transport, "base")))))
+
+
+target("breezy/bzr/smart/request.py::_pre_open_hook", params=dict(transport=TRANS, jail_info=JAIL), modifies=[],
+       loops={1: loop(r"for allowed_transport in allowed_transports", index="i", inv=lambda c: none_allows(c, c.i))},
+       ensures={"opens_only_inside_the_jail": lambda c: Or(
+                    c.old.jail_info.transports.is_none,
+                    exists([INT], lambda j: And(0 <= j, j < Len(c.old.jail_info.transports.val),
+                                                Below(c.old.jail_info.transports.val[j], attr(c.old.transport, "base")))))},
+       raises={"JailBreak": lambda c: And(Not(c.old.jail_info.transports.is_none), none_allows(c, Len(c.old.jail_info.transports.val))),
+               # a failing containment test never lets the open through (it may surface as the transport's own error)
+               "Exception": lambda c: Not(c.old.jail_info.transports.is_none)},
+       canary=lambda c: c.old.jail_info.transports.is_none,
+       note="with a jail set, the hook returns only if some allowed transport contains the URL; otherwise JailBreak")
+
+target(P + "setup_jail", params=dict(jail_info=JAIL), modifies=["jail_info.transports"],
+       ensures={"the_jail_is_exactly_the_jail_root": lambda c: And(Not(c.jail_info.transports.is_none),
+                                                                  c.jail_info.transports.val == lift([c.self._jail_root], Seq(TRANS)))},
+       canary=lambda c: c.jail_info.transports.is_none)
+
 undecided("the case without a root client path: containment then rests entirely on the chroot decorator and the jail (dromedary, external)")
-undecided("urlutils.joinpath / escape themselves (dromedary), _pre_open_hook and setup_jail, home-directory expansion in the server factory")
+undecided("urlutils.joinpath / escape and Transport.relpath themselves (dromedary), home-directory expansion in the server factory, "
+          "that the pre-open hook is installed and the jail set up around every request (call sites of setup_jail)")
